@@ -3,6 +3,7 @@ package props
 import (
 	"fmt"
 	"go/ast"
+	"go/printer"
 	"go/token"
 	"go/types"
 	"sort"
@@ -200,16 +201,14 @@ func checkCompositeKinds(c *Ctx, pk *packages.Package) {
 	c.Check(strings.Contains(src, "AdditionalProperties()"), rule, "codescan.schemaBuilder.buildFromType › map → additionalProperties", c.posOf(pk, fd.Pos()), "maps become additionalProperties", "maps are no longer described through additionalProperties")
 }
 
+// nodeText renders a node from the syntax tree that was analysed (so that in-memory overlays
+// are honoured and formatting differences do not matter).
 func nodeText(pk *packages.Package, n ast.Node) string {
-	start, end := pk.Fset.Position(n.Pos()), pk.Fset.Position(n.End())
-	for _, f := range pk.CompiledGoFiles {
-		if f == start.Filename {
-			if b, err := readFileCached(f); err == nil && end.Offset <= len(b) {
-				return string(b[start.Offset:end.Offset])
-			}
-		}
+	var b strings.Builder
+	if err := printer.Fprint(&b, pk.Fset, n); err != nil {
+		return ""
 	}
-	return ""
+	return b.String()
 }
 
 func checkJSONTags(c *Ctx, pk *packages.Package) {
@@ -418,10 +417,8 @@ func checkPackageIdentity(c *Ctx, rule string, pk *packages.Package) {
 	}
 	// positive sites: identity tests by path exist
 	src := ""
-	for _, f := range pk.CompiledGoFiles {
-		if b, err := readFileCached(f); err == nil {
-			src += string(b)
-		}
+	for _, f := range pk.Syntax {
+		src += nodeText(pk, f)
 	}
 	for _, want := range []string{`PkgPath == "time"`, `PkgPath == "encoding/json"`, `Path() == "time"`} {
 		c.Check(strings.Contains(src, want), rule, "codescan › identity test "+want, "", "by import path", "expected identity test by import path not found (anchor)")
